@@ -462,6 +462,12 @@ class World(BaseWorld):
             self.wlist = wl
             ev = fn(op)
         self.check_all_book(kind)
+        # keep the world small (harness action): oversized objects leave the pool
+        for i in range(len(self.pool) - 1, -1, -1):
+            sl = self.pool[i]
+            if sl.t != "num" and (len(sl.shadow.t) > MAX_TERMS or len(sl.shadow.variables()) > 9):
+                self.pool.pop(i)
+                self.probe("oversized_object_dropped")
         self.resnap()
         return [kind, ev, [(s.t, len(s.shadow.t) if s.t != "num" else 0) for s in self.pool]]
 
@@ -573,6 +579,8 @@ class World(BaseWorld):
         if not (A.is_model or B.is_model):
             return "skipped"
         f = op["f"]
+        if f == "mul" and len(self.poly_of(A).t) * len(self.poly_of(B).t) > 1500:
+            return "skipped-large"
         want = self.apply_bin_ref(f, self.poly_of(A), self.poly_of(B))
         if not exact_ok(self.poly_of(A), self.poly_of(B), product=(f == "mul")) or not exact_ok(want):
             return "skipped-inexact"
@@ -622,6 +630,8 @@ class World(BaseWorld):
         if not A.is_model:
             return "skipped"
         f = op["f"]
+        if f == "mul" and len(self.poly_of(A).t) * len(self.poly_of(B).t) > 1500:
+            return "skipped-large"
         want = self.apply_bin_ref(f, self.poly_of(A), self.poly_of(B))
         if not exact_ok(self.poly_of(A), self.poly_of(B), product=(f == "mul")) or not exact_ok(want):
             return "skipped-inexact"
@@ -716,6 +726,8 @@ class World(BaseWorld):
         if not A.is_model:
             return "skipped"
         k = op["k"]
+        if len(A.shadow.t) ** k > 1500:
+            return "skipped-large"
         if not exact_ok(*([A.shadow] * k), product=True):
             return "skipped-inexact"
         required, permitted, want = self.pow_status(A, k)
